@@ -383,6 +383,24 @@ func perturbations(b Route) []pert {
 		}
 	}
 	ps = append(ps, pert{"param.add-unbound", func(r *Route) bool { r.Params = append(r.Params, Prm{"extra", "string"}); return true }})
+	// a further annotation: bound to a new function parameter (well-linked for everything except an extra @Path, a
+	// second body, or a body next to form fields) or to nothing at all
+	for _, k := range kinds {
+		k := k
+		ps = append(ps, pert{"ann.add-" + k + "->new-param", func(r *Route) bool {
+			t := "string"
+			if k == "Body" {
+				t = "Body§"
+			}
+			r.Params = append(r.Params, Prm{"added", t})
+			r.Anns = append(r.Anns, Ann{Kind: k, Ref: "added"})
+			return true
+		}})
+		ps = append(ps, pert{"ann.add-" + k + "->no-param", func(r *Route) bool {
+			r.Anns = append(r.Anns, Ann{Kind: k, Ref: "ghost"})
+			return true
+		}})
+	}
 	ps = append(ps, pert{"param.add-context", func(r *Route) bool {
 		for _, p := range r.Params {
 			if isCtx(p.Type) {
